@@ -125,7 +125,8 @@ Section Closure.
       (length R = length acc -> R = acc /\ forall e, In e E' -> mem (fst e) acc = mem (snd e) acc).
   Proof.
     induction E' as [|e t IH]; simpl; intros HU acc Hnd Hin.
-    - repeat split; auto using incl_refl. intros e [].
+    - split; [exact Hnd|]. split; [exact Hin|]. split; [apply incl_refl|]. split; [lia|].
+      intros _. split; [reflexivity|]. intros e [].
     - assert (HUt : forall e', In e' t -> In (fst e') U /\ In (snd e') U) by (intros e' He'; apply HU; right; exact He').
       destruct (grow1_cases acc e) as [[Heq Hm]|[x [Heq [Hx Hxe]]]]; rewrite Heq.
       + destruct (IH HUt acc Hnd Hin) as [H1 [H2 [H3 [H4 H5]]]].
@@ -149,11 +150,11 @@ Section Closure.
     NoDup R' /\ incl R' U /\ incl R R' /\ (closed E R' \/ (length R + fuel <= length R')%nat).
   Proof.
     induction fuel as [|f IH]; simpl; intros R Hnd Hin.
-    - repeat split; auto using incl_refl. right. lia.
+    - split; [exact Hnd|]. split; [exact Hin|]. split; [apply incl_refl|]. right. lia.
     - destruct (fold_grow1_props E HU R Hnd Hin) as [H1 [H2 [H3 [H4 H5]]]]. fold (grow E R) in *.
       destruct (Nat.eqb (length (grow E R)) (length R)) eqn:Hl.
       + apply Nat.eqb_eq in Hl. destruct (H5 Hl) as [_ Hc].
-        repeat split; auto using incl_refl. left. exact Hc.
+        split; [exact Hnd|]. split; [exact Hin|]. split; [apply incl_refl|]. left. exact Hc.
       + apply Nat.eqb_neq in Hl. destruct (IH (grow E R) H1 H2) as [K1 [K2 [K3 K4]]].
         split; [exact K1|]. split; [exact K2|]. split; [intros y Hy; apply K3; apply H3; exact Hy|].
         destruct K4 as [K4|K4]; [left; exact K4 | right; lia].
@@ -175,11 +176,14 @@ Lemma reach_fixpoint root E :
 Proof.
   assert (Hnd : NoDup [root]) by (constructor; [intros [] | constructor]).
   assert (Hin : incl [root] (universe root E)) by (intros y [Hy|[]]; subst; left; reflexivity).
-  destruct (reach_props (universe root E) E (universe_edges root E) (fuel_for E) [root] Hnd Hin) as [H1 [H2 [H3 H4]]].
-  simpl. split; [|apply H3; left; reflexivity].
+  pose proof (reach_props (universe root E) E (universe_edges root E) (fuel_for E) [root] Hnd Hin) as HP.
+  cbv zeta in HP. cbv zeta.
+  set (R := reach (fuel_for E) E [root]) in *.
+  destruct HP as [H1 [H2 [H3 H4]]].
+  split; [|apply H3; left; reflexivity].
   destruct H4 as [H4|H4]; [exact H4|]. exfalso.
   pose proof (NoDup_incl_length H1 H2) as Hle. rewrite universe_length in Hle.
-  unfold fuel_for in H4. simpl in H4. lia.
+  change (length [root]) with 1%nat in H4. unfold fuel_for in H4. lia.
 Qed.
 
 Lemma closed_contains l wid root R :
